@@ -112,19 +112,21 @@ def joinCore (a b : Ctx) (allowNudge : Bool) : Ctx :=
 def join (a b : Ctx) : Ctx := joinCore a b true
 
 /-- `mangle`: injective rendering of (state, delim, attr name, element name); the real code uses
-    `strings.Title` of the names — the model keeps the lower-case names (names of derived templates
-    are not compared with the implementation). -/
+    `strings.Title` of the names. The spelling matters: a template text may define a template whose name IS a
+    mangled name (known finding mangled-name-collision). -/
 def mangle (c : Ctx) (name : String) : String :=
   if c.state == .text && c.elemName == [] && c.elemNames.isEmpty then name
   else
-    let namesStr (l : List Bytes) : String := "[" ++ String.intercalate " " (l.map strOfBytes) ++ "]"
+    -- fmt %q of a []string / string (names are lower-case ASCII identifiers here; no escapes needed)
+    let q (b : Bytes) : String := "\"" ++ strOfBytes b ++ "\""
+    let namesStr (l : List Bytes) : String := "[" ++ String.intercalate " " (l.map q) ++ "]"
     name ++ "$htmltemplate_" ++ c.state.str ++
       (if c.delim != .none then "_" ++ c.delim.str else "") ++
       (if c.attrName != [] then "_attr" ++ strOfBytes (titleAscii c.attrName) else "") ++
       (if c.elemName != [] then "_element" ++ strOfBytes (titleAscii c.elemName) else "") ++
       (if !c.attrNames.isEmpty || !c.elemNames.isEmpty || c.scriptType != [] || c.linkRel != [] then
-        "_" ++ namesStr c.attrNames ++ "_" ++ namesStr c.elemNames ++ "_" ++ strOfBytes c.scriptType ++ "_" ++
-          strOfBytes c.linkRel
+        "_" ++ namesStr c.attrNames ++ "_" ++ namesStr c.elemNames ++ "_" ++ q c.scriptType ++ "_" ++
+          q c.linkRel
        else "")
 
 def isPredefined (n : String) : Bool := predefinedEscapers.any fun r => strOfBytes r.2 == n
@@ -244,6 +246,8 @@ def escapeBranch (env : Env) : Nat → String → Esc → Ctx → NodeList → N
 def escapeTree (env : Env) : Nat → Esc → Ctx → String → Out (Esc × Ctx × String)
   | 0, _, _, _ => .fuel
   | f+1, e, c, name =>
+    -- an error context is final: no memo lookup, nothing recorded
+    if c.state == .error then .ok (e, c, name) else
     let dname := mangle c name
     let e := { e with called := if e.called.contains dname then e.called else e.called ++ [dname] }
     match alookup e.output dname with
